@@ -23,6 +23,7 @@ verus! { proof fn verif_canary_must_fail() ensures false {} }
 PROOF_FAIL = [
     (r'^postcondition not satisfied', 'post'),
     (r'^precondition not satisfied', 'pre-of-callee'),
+    (r'^precondition not met', 'pre-of-callee'),
     (r'^invariant not satisfied at end of loop body', 'invariant-preserved'),
     (r'^invariant not satisfied before loop', 'invariant-init'),
     (r'^assertion failed', 'assert'),
@@ -59,9 +60,16 @@ def fn_ranges(text):
             elif ch in ')]':
                 depth -= 1
             elif ch == '{' and depth == 0:
-                # could be a spec-clause block expr?  spec lines never start a brace at depth 0
-                # before the body except `ensures ({..})` which is in parens.
-                end = match_brace(m, k)
+                # a brace block at depth 0 is the body unless it is a block expression inside a spec
+                # clause (`ensures a ==> { .. },`): those are followed by `,` or an operator
+                e = match_brace(m, k)
+                j = e + 1
+                while j < len(m) and m[j] in ' \t\r\n':
+                    j += 1
+                if j < len(m) and m[j] in ',&|=<>+-*/.?':
+                    k = e + 1
+                    continue
+                end = e
                 break
             elif ch == ';' and depth == 0:
                 end = k
